@@ -81,6 +81,13 @@ def check(ctx):
         pts.append({"p": d["p"], "conf": d["conf"]})
     rng = random.Random(ctx.seed * 19 + 8)
     cases = [rand_case(rng, k) for k in range(1500 if thorough else 250)]
+    # same-hash twins: other functions with the same block / loop / call profile but other string literals and
+    # entropy, scanned on the SAME scanner right after (or before) the main one
+    for c in cases[: (600 if thorough else 120)]:
+        if rng.random() < 0.5:
+            c["alts"] = [{"te": rng.choice([0, 8, 9, 10, 12, 32]), "lits": rng.choice([["Connect-Back to c2", "/bin/sh -c"], ["zzz only"], [], ["x" * 40, "/BIN/sh"]])}
+                         for _ in range(rng.choice([1, 2]))]
+            c["alt_first"] = rng.random() < 0.5
     sizes = [65, 101, 129, 257, 300, 520, 1030] if thorough else [65, 129, rng.choice([101, 257])]
     cases += [crowd_case(rng, k, n) for k, n in enumerate(sizes)]
     ctx.notes["crowd_sizes"] = sizes
@@ -127,14 +134,14 @@ def check(ctx):
             ctx.cov["traces_validated_against_impl"] += len(scans)
             break
         e = tev[bad - 1]
-        case = next(c for c in cases if c["key"] == e["key"])
+        case = next(c for c in cases if c["key"] == e["key"].split("#")[0])
         replay = ctx.save_replay("scan_%s" % vlib.digest(case), {"case.json": case, "event.json": e})
         fresh = ctx.violation("C08:%s:%s" % (e["be"], e["mode"]),
                               "scan (%s, %s, theta=%s) returned alerts %s that the contract rejects; case: %s"
                               % (e["be"], e["mode"], e["theta"], e["alerts"], json.dumps(case)[:1200]), replay)
         if fresh:
             break
-        tev = [x for x in tev if x.get("key") != e["key"]]
+        tev = [x for x in tev if (x.get("key") or "").split("#")[0] != e["key"].split("#")[0]]
         vlib.write_ndjson(trace, tev)
     withalerts = [e for e in scans if e["alerts"]]
     if withalerts:
